@@ -127,7 +127,9 @@ def classify(case):
             elif x_lo > t.knots[d][na]: pos = 'upper-margin-knot'
             elif x_lo == t.knots[d][na]: pos = 'support-end-repeated-knot' if t.knots[d][na - 1] == t.knots[d][na] else 'support-end-knot'
             else: pos = 'interior-knot'
-        cls.append('%s%s' % (pos, '/minknots' if nk == 2 * o + 2 else ''))
+        dn = ''
+        if case['kind'] == 'deriv' and d < len(case['derivs']): dn = 'd%d@' % case['derivs'][d]
+        cls.append('%s%s%s' % (dn, pos, '/minknots' if nk == 2 * o + 2 else ''))
     return ','.join(sorted(set(cls)))
 
 def evaluate(out, pid, casesets, budget, per_group=2):
